@@ -32,6 +32,8 @@ func init() {
 		{"D", proto.B("/"), proto.L([]string{"get"}), proto.L([]string{"/x/{a}--{b}"}), proto.B("GET"), proto.B("/x/foo")},
 		// F01f (fixed): a wildcard parameter that is no placeholder of the template used to panic
 		{"D", proto.B("/a"), proto.L([]string{"post"}), proto.L([]string{"/{y}--{petId}/*/{k1}"}), proto.B("post"), proto.B("/a/;--1/*/a-b")},
+		// F01e (fixed): a template with a trailing slash used to be unroutable
+		{"D", proto.B("/"), proto.L([]string{"head"}), proto.L([]string{"/a/"}), proto.B("HEAD"), proto.B("/a/")},
 		// F01c: ':' in the static text of a parameterised template
 		{"D", proto.B("/"), proto.L([]string{"get"}), proto.L([]string{"/a:b/{id}"}), proto.B("GET"), proto.B("/aXYZ/5")},
 	}})
